@@ -262,11 +262,11 @@ def entLine (e e' : Ent PS) : Act → String
     let q := e'.queue.contains id
     let d := decide (e'.dropped.length > e.dropped.length)
     let p := if e.poll.isNone then e'.poll else none
-    s!"req {id} {t} {optS fid} {showBool q} {showBool d} {optS p}"
+    s!"req {id} {t} {optS fid} {showBool q} {showBool d} {optS p} {e'.queue.length}"
   | .poll t =>
     let fid := if e'.fwd.length > e.fwd.length then e'.fwd.head?.map (·.1) else none
     if e.poll != some t then s!"bad-poll {t} expected {optS e.poll}"
-    else s!"poll {t} {optS fid} {optS e'.poll}"
+    else s!"poll {t} {optS fid} {optS e'.poll} {e'.queue.length}"
 
 /-- a delivery and, optionally, the poll time the implementation scheduled in response -/
 def parseAct : List String → Option (Act × Option Nat)
@@ -310,6 +310,7 @@ structure EAcc where
   depth : Option Nat := none
   counters : List Nat := []
   eobs : List EObs := []           -- newest first
+  cobs : List CObs := []           -- newest first
   wd : Bool := false               -- the harness stopped a run that made > 5000 deliveries
   bad : Bool := false
 
@@ -317,18 +318,31 @@ def optNat (s : String) : Option Nat := if s == "-" then none else some (natD s)
 
 def ejudgeLine (a : EAcc) (ts : List String) : EAcc :=
   match ts with
-  | ["req", id, t, fid, _, d, p] =>
+  | ["req", id, t, fid, _, d, p, depth] =>
     { a with arr := (natD id, natD t) :: a.arr,
              dropped := if d == "1" then natD id :: a.dropped else a.dropped,
-             eobs := ⟨false, natD t, fid != "-", optNat p⟩ :: a.eobs }
-  | ["poll", t, fid, p] => { a with eobs := ⟨true, natD t, fid != "-", optNat p⟩ :: a.eobs }
+             eobs := ⟨false, natD t, fid != "-", optNat p⟩ :: a.eobs,
+             cobs := ⟨true, fid != "-", d == "1", natD depth⟩ :: a.cobs }
+  | ["poll", t, fid, p, depth] =>
+    { a with eobs := ⟨true, natD t, fid != "-", optNat p⟩ :: a.eobs,
+             cobs := ⟨false, fid != "-", false, natD depth⟩ :: a.cobs }
   | ["watchdog"] => { a with wd := true }
   | "orc-left" :: _ => a
   | ["fwd", id, t] => { a with fwd := (natD id, natD t) :: a.fwd }
   | ["end", depth, r, f, d] => { a with depth := some (natD depth), counters := [natD r, natD f, natD d] }
   | _ => { a with bad := true }
 
-def judgeEntity (ps : PS) (body : List String) : List String :=
+def capViol (cap : Option Nat) : Nat → List CObs → Option String
+  | _, [] => none
+  | db, o :: os =>
+    if capStepOK cap db o then capViol cap o.da os
+    else if (match cap with | some c => decide (c < o.da) | none => false) then
+      some "entity/capacity/queue-exceeds-capacity"
+    else if o.drop then some "entity/capacity/dropped-while-room-or-granted"
+    else if o.req && !o.fwd then some "entity/capacity/refused-request-neither-queued-nor-dropped"
+    else some "entity/capacity/depth-disagrees-with-deliveries"
+
+def judgeEntity (cap : Option Nat) (ps : PS) (body : List String) : List String :=
   let a := body.foldl (fun a l => ejudgeLine a (toks l)) {}
   let arr := a.arr.reverse
   let recv := arr.map (·.1)
@@ -347,6 +361,7 @@ def judgeEntity (ps : PS) (body : List String) : List String :=
       ["viol entity/exactly-once/counters-disagree-with-log"]
     else if !fifoOK recv fids then ["viol entity/fifo/forwarded-out-of-arrival-order"]
     else if !fwdTimesOK arr fwd then ["viol entity/forwarded-before-arrival"]
+    else if !capacityOK cap 0 a.cobs.reverse then [s!"viol {(capViol cap 0 a.cobs.reverse).getD "entity/capacity"}"]
     else if !singlePollOK none a.eobs.reverse then ["viol entity/poll/second-outstanding"]
     else if !pollCoverOK a.eobs.reverse depth then ["viol entity/drain/queued-without-poll"]
     else match boundViol ps false (fwd.map (·.2)) with
@@ -361,7 +376,8 @@ def judgeEntity (ps : PS) (body : List String) : List String :=
 
 /-! ### DistributedRateLimiter
 
-`drl <W> <N> <instances>` — body: the segments in the order the engine ran them, `arr i id t` /
+`drl current|repaired <W> <N> <instances>` (`current`: every `arr` line carries the window id the float
+floor division gave; `repaired`: `t / W`) — body: the segments in the order the engine ran them, `arr i id t` /
 `res i id t`; output: the same lines with what the segment did (`L` local rejection, `R` read issued,
 `G` global rejection, `W` write issued, `F` forwarded), then `fwd i id t` in emission order, the public
 counters of every instance and the final store contents.
@@ -384,10 +400,18 @@ def insertSorted (w : Nat) : List Nat → List Nat
   | [] => [w]
   | x :: xs => if w < x then w :: x :: xs else if w == x then x :: xs else x :: insertSorted w xs
 
-def runDRL (W N n : Nat) (body : List String) : List String :=
+/-- the window-id table of variant `current`: `arr i id t wid` lines carry what the float floor division
+    answered for `t` -/
+def widRows (body : List String) : List (Nat × Nat) :=
+  body.filterMap fun l => match toks l with
+    | ["arr", _, _, t, w] => some (natD t, natD w)
+    | _ => none
+
+def runDRL (current : Bool) (W N n : Nat) (body : List String) : List String :=
   let acts := body.filterMap (fun l => parseDAct (toks l))
+  let wid : Nat → Nat := if current then widTable W (widRows body) else aligned W
   let (s, lines) := acts.foldl (fun (acc : DRL × List String) a =>
-      let r := acc.1.step W N a
+      let r := acc.1.step wid N a
       (r.1, s!"{dActS a} {dOutS r.2}" :: acc.2)) (DRL.init n, [])
   let wins := s.store.foldl (fun acc b => insertSorted b.1 acc) []
   lines.reverse
@@ -454,7 +478,10 @@ def judgeDRL (W N n : Nat) (body : List String) : List String :=
       fifoOK ((arrs.filter (·.1 == i)).map (·.2.1)) ((fwd.filter (·.1 == i)).map (·.2.1))) then
     ["viol drl/fifo/forwarded-out-of-arrival-order"]
   else if a.seq && !drlWindowOK W N (fwd.map (fun f => arrOf f.2.1)) then
-    ["viol drl/window/over-admission-sequential"]
+    -- trigger: is the excess explained by requests that arrived exactly on a window boundary `k·W`?
+    if drlWindowOK W N ((fwd.map (fun f => arrOf f.2.1)).filter (fun t => t % W != 0)) then
+      ["viol drl/window/over-admission-sequential-boundary-arrival"]
+    else ["viol drl/window/over-admission-sequential"]
   else ["ok"]
 
 def handle (hdr : List String) (body : List String) : List String :=
@@ -471,11 +498,11 @@ def handle (hdr : List String) (body : List String) : List String :=
     match parseKind kind with
     | some ps => runEntity (natD qcap) ps body
     | none => ["bad-config"]
-  | "judge-entity" :: _ :: kind =>
+  | "judge-entity" :: q :: kind =>
     match parseKind kind with
-    | some ps => judgeEntity ps body
+    | some ps => judgeEntity (if q == "inf" then none else some (natD q)) ps body
     | none => ["bad-config"]
-  | ["drl", w, n, k] => runDRL (natD w) (natD n) (natD k) body
+  | ["drl", v, w, n, k] => runDRL (v == "current") (natD w) (natD n) (natD k) body
   | ["judge-drl", w, n, k] => judgeDRL (natD w) (natD n) (natD k) body
   | _ => ["bad-mode"]
 
